@@ -249,7 +249,7 @@ class Case(object):
 
     def sig(self):
         return (self.stream, self.skey, self.uname, self.method, self.ops, self.out,
-                tuple(sorted((k, str(v)) for k, v in self.kw.items())))
+                tuple(sorted((k, str(v)) for k, v in self.kw.items())), self.variant)
 
     def key(self, code, res='?'):
         def fmt(v):
@@ -869,10 +869,11 @@ def out_patterns(nout, kind, rich):
     return pats
 
 
-def enumerate_cases(ctx, thorough, zoo):
+def enumerate_cases(ctx, thorough, zoo, variant=None):
     table = ufunc_table()
     rich_all = thorough
-    variant = ctx.seed % 3
+    if variant is None:
+        variant = ctx.seed % 3
     for skey, (kind, _) in zoo.items():
         broad_space = thorough or skey.endswith('_23') or skey.endswith('_3') or \
             kind == 'power' or skey in ('d_float64_4',)
@@ -1369,7 +1370,12 @@ def run(ctx, deep=False):
     lines, meta = [], []
     skipped = 0
     # ---- main enumeration
-    for c in enumerate_cases(ctx, thorough, zoo):
+    variants = [ctx.seed % 3]
+    if ctx.tier == 'thorough':   # all three value sets (signs, zeros, repeats differ)
+        variants = [(ctx.seed + k) % 3 for k in range(3)]
+    all_cases = itertools.chain.from_iterable(
+        enumerate_cases(ctx, thorough, zoo, v) for v in variants)
+    for c in all_cases:
         space = spaces[c.skey]
         try:
             r = run_case(c, space)
